@@ -17,7 +17,9 @@ Trees(depth) ==
            one == { [row |-> r, block |-> b, kids |-> k] : r \in RowsAt(depth), b \in BOOLEAN, k \in sub }
            ok(n) == n.block \/ n.kids = <<>>
            nodes == { n \in one : ok(n) }
-       IN {<<>>} \cup { <<n>> : n \in nodes } \cup { p \in (nodes \X nodes) : p[1].row # p[2].row }
+           \* an `else` closes the if-chain it follows: it is never the first of two siblings (and two chain ends give two `endif` lines
+           \* under one parent, which is the equal-sibling-commands case recorded as a finding for shipped rulebooks, not a new one)
+       IN {<<>>} \cup { <<n>> : n \in nodes } \cup { p \in (nodes \X nodes) : p[1].row # p[2].row /\ p[1].row # <<"else">> }
 Vendors == {"common", "huawei", "cisco", "asr", "exit"}
 VARIABLES pt
 Init == pt \in Trees(0)
